@@ -134,10 +134,19 @@ def run_shard(shard, tier, seed):
     if shard.get("hist"):
         run_histories(acc)
         return acc
+    depth = _depth(tier, shard.get("level", 0))
     for kind, cid, ni in shard["cids"]:
         cid = tuple((s, i) for s, i in cid)
-        check_case(kind, cid, ni, _depth(tier, shard.get("level", 0)), acc)
+        io.run_minimised((kind, cid, ni), lambda k, a: check_case(k[0], k[1], k[2], depth, a), _smaller, acc)
     return acc
+
+
+def _smaller(key):
+    kind, cid, ni = key
+    for j in range(len(cid)):
+        yield (kind, cid[:j] + cid[j + 1:], ni)
+    if ni:
+        yield (kind, cid, 0)
 
 
 def replay(case):
@@ -328,7 +337,11 @@ def read_and_compare(kind, ps, wr, kindr, depth, acc, viol0, tag=""):
         return
     acc.count("roundtrips")
     acc.count("roundtrips_" + kindr)
-    res = bisim.compare(ps, spec_b, ren, depth=depth, plan_k=2)
+    try:
+        res = bisim.compare(ps, spec_b, ren, depth=depth, plan_k=2)
+    except Exception as e:  # the re-read problem contains something the spec language cannot express
+        viol("%s:not-comparable:%s" % (kindr, io.exc_name(e)), "re-read problem cannot be interpreted by the reference: %s" % (e,))
+        return
     for k in ("states", "transitions", "nontrivial", "traces", "plans"):
         acc.count(k, res.c[k])
     for k, v in res.outcomes.items():
@@ -336,7 +349,11 @@ def read_and_compare(kind, ps, wr, kindr, depth, acc, viol0, tag=""):
     for sub, what, wit in res.diffs:
         viol("%s:%s" % (kindr, sub), what, {"witness": wit})
     if kind == "temp" and not any(s in ("objects", "fluents", "init") for s, _w, _x in res.diffs):
-        tdiffs, n_eval = io.temporal_compare(ps, spec_b, ren, res.pairs)
+        try:
+            tdiffs, n_eval = io.temporal_compare(ps, spec_b, ren, res.pairs)
+        except Exception as e:
+            viol("%s:not-comparable:%s" % (kindr, io.exc_name(e)), "temporal part of the re-read problem cannot be interpreted by the reference: %s" % (e,))
+            return
         acc.count("temporal_evaluations", n_eval)
         for sub, what, wit in tdiffs:
             viol("%s:%s" % (kindr, sub), what, {"witness": wit})
